@@ -359,12 +359,17 @@ def ewald_reference(a, pos, Z, eta=None, tol=1e-14):
     return float(E)
 
 
+NATIVE_BACKEND = "numpy"
+
+
 def _native_E(a, pos, Z, **kw):
     import eminus
     from eminus import Atoms
     from eminus.energies import get_Eewald
 
-    eminus.config.backend = "numpy"
+    eminus.config.backend = NATIVE_BACKEND
+    if eminus.config.backend != NATIVE_BACKEND:
+        raise RuntimeError(f"harness: the {NATIVE_BACKEND} backend is not available")
     eminus.config.verbose = "critical"
     at = Atoms(["H"] * len(Z), np.asarray(pos, float), ecut=1, a=np.asarray(a, float))
     at.Z = [int(z) for z in Z]
@@ -408,6 +413,15 @@ class Converged:
                 nat = 3 + k % 2
                 Zs = [int(z) for z in rng.integers(1, 5, nat)]
                 Zs[k % (nat - 1)] = 0
+                out.append(dict(a=a.tolist(), frac=rng.uniform(0, 1, (nat, 3)).tolist(), Z=Zs))
+                continue
+            elif self.family == "negative_net_charge":
+                # hand-set charges of either sign with a NEGATIVE sum (the neutralising-background term is quadratic in the net charge)
+                a = np.diag(rng.uniform(6, 11, 3)) + rng.uniform(-0.7, 0.7, (3, 3))
+                nat = 2 + k % 2
+                Zs = [int(z) for z in rng.integers(-4, 2, nat)]
+                if sum(Zs) >= 0:
+                    Zs[0] -= sum(Zs) + 1 + k % 2
                 out.append(dict(a=a.tolist(), frac=rng.uniform(0, 1, (nat, 3)).tolist(), Z=Zs))
                 continue
             elif self.family == "madelung":
@@ -461,7 +475,52 @@ class Converged:
         return bool(err > self.tol(wit["case"])), dict(get_Eewald=e, reference=ref, rel_err=err)
 
 
-for _fam in ("orthorhombic", "triclinic", "skewed", "madelung", "nearly_equal_pairs", "uncharged_atom_in_the_list"):
+class ConvergedTorch(Converged):
+    """The same comparison with the Torch array backend (the package default when torch is importable): triclinic cells with two to three atoms and the
+    Madelung structures; both atom orders."""
+
+    def __call__(self, ob, tier, seed):
+        import contracts.c10 as me
+        import eminus
+
+        me.NATIVE_BACKEND = "torch"
+        try:
+            for fam in ("triclinic", "madelung"):
+                self.family = fam
+                r = Converged.__call__(self, ob, tier, seed)
+                if r.verdict != BOUNDED_OK:
+                    return r
+            # the atoms listed in the reverse order
+            rng = np.random.default_rng(seed + 1)
+            for c in Converged("triclinic").cases(rng, 3):
+                a, pos = np.array(c["a"]), np.array(c["frac"]) @ np.array(c["a"])
+                e1, e2 = _native_E(a, pos, c["Z"]), _native_E(a, pos[::-1].copy(), list(c["Z"])[::-1])
+                if abs(e1 - e2) > 1e-9 * max(1.0, abs(e1)):
+                    return Result(REFUTED, backend="native", witness=dict(case=c), replayed=True, replay_info=dict(E=e1, reversed_order=e2), detail=f"Torch backend: get_Eewald depends on the atom order ({e1} vs {e2})")
+            return r
+        except RuntimeError as e:
+            if str(e).startswith("harness:"):
+                return Result(UNDECIDED, backend="native", detail=str(e))
+            raise
+        finally:
+            me.NATIVE_BACKEND = "numpy"
+            eminus.config.backend = "numpy"
+
+    def replay(self, wit):
+        import contracts.c10 as me
+
+        me.NATIVE_BACKEND = "torch"
+        try:
+            return Converged.replay(self, wit)
+        finally:
+            me.NATIVE_BACKEND = "numpy"
+
+
+register(Obligation(name="C10.get_Eewald.converged_sum.torch_backend", prop=PROP, engine="B", bounded=True, functions=["eminus.energies:get_Eewald"],
+                    run=ConvergedTorch("triclinic"), budget={"quick": 300, "thorough": 1200},
+                    doc="BOUNDED: get_Eewald under the Torch backend vs the independent converged sum (triclinic cells, Madelung structures) and under a reversed atom order"))
+
+for _fam in ("orthorhombic", "triclinic", "skewed", "madelung", "nearly_equal_pairs", "uncharged_atom_in_the_list", "negative_net_charge"):
     register(Obligation(name=f"C10.get_Eewald.converged_sum.{_fam}", prop=PROP, engine="B", bounded=True, functions=["eminus.energies:get_Eewald"],
                         run=Converged(_fam), budget={"quick": 300, "thorough": 1200},
                         doc=f"BOUNDED: default-parameter get_Eewald vs an independent converged Ewald sum ({_fam} cells, random bases and charges)"))
